@@ -59,6 +59,24 @@ CHECKS = {
             "parse, add/set/clear/remove/get/is_marked and the observed verdict is validated by the trace spec.",
             "Trusted: object-to-tree projection (harness/impl_markings.py); selector steps outside the syntax character set carry no obligation.",
             "DESIGN.md §3.4"),
+    "C11": ("datastore", "TLA+ model of stores as the plain set of additions; TLC exhaustive over addition orders/forms; TLC-simulated behaviours replayed on MemoryStore + FileSystemStore + a list; trace validation of random histories",
+            "TLC checks on spec/DataStore.tla that both stores hold exactly what was added (nothing lost or replaced, reads independent of order and form) for every history of up to 4 additions "
+            "over a universe with sub-millisecond versions, an unversioned observable, a 2.0 type and a dictionary-kept custom type. Simulated behaviours (adds in six input forms, get / all_versions / "
+            "query / save-load) are replayed on a memory store and a filesystem store side by side, and random populations are validated read by read against the scan semantics evaluated by TLC.",
+            "Trusted: abstract<->concrete object mapping (harness/impl_datastore.py); equal (id, modified) only re-added with identical content; filesystem re-addition refused loudly (named deviation).",
+            "DESIGN.md §3.6"),
+    "C12": ("datastore", "TLA+ filter semantics (Holds) and a transcription of the filesystem search optimizer; TLC proves pruning soundness for every filter sequence; complete table replay through FileSystemSource.query; trace validation of random queries over three filter routes",
+            "TLC checks PruningSound and order-independence for all 44k sequences of <=3 type/id filters (every operator, empty/contradictory/repeated) on spec/FsOptimizer.tla and the conjunction/shrinking laws "
+            "on DataStore.tla. Every sequence of <=2 filters (sampled at 3) is replayed through the filesystem and memory sources against TLC's expected ids, and random queries with every operator on "
+            "every property kind, as argument / attached / passed down by a composite (including a member asked directly afterwards), are validated by the trace spec.",
+            "Trusted: order-preserving integer stand-ins for strings; 'contains' only where substring and equality coincide.",
+            "DESIGN.md §3.6"),
+    "C18": ("datastore", "TLA+ federation and navigation operators (union, newest, de-duplication, Rels/RelatedTo/CreatorOf as scans); trace validation of composites over memory and filesystem members in random attachment orders and of navigation through store, composite and Environment",
+            "The composite's answers are specified as functions of the union of its members and navigation as comprehensions over the stored relationship objects; random partitions with overlaps and different "
+            "versions over 2-3 members (memory and filesystem) are queried through CompositeDataSource and Environment with filters on both levels, and relationships / related_to / creator_of "
+            "(type, source-only, target-only, extra filters, id or object argument, self-loops, hyphenated types) are validated line by line by TLC.",
+            "Trusted: reference = de-duplicated union keyed by (id, modified); get under attached filters may answer nothing (documented deviation).",
+            "DESIGN.md §3.6"),
 }
 
 NOT_YET = {}
